@@ -138,3 +138,37 @@ package mux
 //@   ensures #range 0 <= result && result < w.muxSize
 //@   ensures #function result == ite(khash % w.muxSize < 0, -(khash % w.muxSize), khash % w.muxSize)
 //@   modifies
+//
+// ---- dispatch: every request of a known kind is handled (and answered) exactly once ----
+//@ pure isop(o OpCode) bool = (tag(o) == tagof(*OpLoad) && *OpLoad(o) != nil && curKey == (*OpLoad(o)).k) || (tag(o) == tagof(*OpAdd) && *OpAdd(o) != nil && curKey == (*OpAdd(o)).k) || (tag(o) == tagof(*OpUpdate) && *OpUpdate(o) != nil && curKey == (*OpUpdate(o)).k) || (tag(o) == tagof(*OpDelete) && *OpDelete(o) != nil && curKey == (*OpDelete(o)).k) || (tag(o) == tagof(*OpMixUpdOrAddIfNull) && *OpMixUpdOrAddIfNull(o) != nil && curKey == (*OpMixUpdOrAddIfNull(o)).k) || (tag(o) == tagof(*OpMixUpsertThenLoad) && *OpMixUpsertThenLoad(o) != nil && curKey == (*OpMixUpsertThenLoad(o)).k) || (tag(o) == tagof(*OpMixUpsertThenRenewInCache) && *OpMixUpsertThenRenewInCache(o) != nil && curKey == (*OpMixUpsertThenRenewInCache(o)).k)
+//@ func Worker.handleAsync
+//@   requires w != nil && c != nil && coh() && ErrDupKey != nil && isop(c.op)
+//@   ensures #coherent coh()
+//@   ensures #once replies == old(replies) + 1
+//@   modifies entries(cacheMap), entries(storeMap), lastR, lastErr, replies
+//
+//@ pure grpwf(w *WorkerGrp) bool = w != nil && w.muxSize > 0 && len(w.ws) == w.muxSize && forall i int :: { w.ws[i] } 0 <= i && i < len(w.ws) ==> w.ws[i] != nil
+//@ func Worker.DoGet
+//@   trusted enqueue-and-wait through the worker's queue (or the lock-free cache fast path); not under contract
+//@   modifies everything()
+//@ func Worker.DoAdd
+//@   trusted enqueue-and-wait through the worker's queue; not under contract
+//@   modifies everything()
+//@ func Worker.DoUpdate
+//@   trusted enqueue-and-wait through the worker's queue; not under contract
+//@   modifies everything()
+//@ func Worker.DoDelete
+//@   trusted enqueue-and-wait through the worker's queue; not under contract
+//@   modifies everything()
+//@ func WorkerGrp.DoGet
+//@   requires grpwf(w)
+//@   modifies everything()
+//@ func WorkerGrp.DoAdd
+//@   requires grpwf(w)
+//@   modifies everything()
+//@ func WorkerGrp.DoUpdate
+//@   requires grpwf(w)
+//@   modifies everything()
+//@ func WorkerGrp.DoDelete
+//@   requires grpwf(w)
+//@   modifies everything()
